@@ -590,7 +590,7 @@ impl Tokenizer {
                 .start;
             self.model
                 .encode_with_offsets(chunk, &mut |offset, token| {
-                    offsets.push(start_offset + base_offset + map_offset(offset));
+                    offsets.push(start_offset + map_offset(base_offset + offset));
                     tokens.push(token);
                 })?;
         }
